@@ -200,7 +200,10 @@ def _bisect(acc, pending, run_one, f0):
             acc.fail(('shared-state-modified',), {'text': t, 'version': v}, 'fingerprint changed by this call')
             return
         base = f
-    acc.fail(('shared-state-modified', 'not-attributable-to-one-call'), {'text': pending[0][0], 'version': pending[0][1]}, '')
+    # the state differs from the one before the batch, but repeating the calls does not change it again
+    # (e.g. a cached object that keeps the state of the last call): report the batch's first call
+    acc.fail(('shared-state-modified',), {'text': pending[0][0], 'version': pending[0][1]},
+             'fingerprint differs after the batch; not attributable to a single repeated call')
 
 
 # ---- (3) schedules ------------------------------------------------------------------------------
@@ -352,8 +355,20 @@ def count_cold_steps(v, texts, start):
 
 def recheck(case):
     env.setup()
+    if 'text' in case:
+        # a single call that changes the shared state (warm-up as in fp_shard, then this one text)
+        import vp.alphabets as A
+        A.ALPHABETS['_replay'] = [case['text']]
+        try:
+            a = fp_shard('_replay', 1, [case['version']], 0, 1, 1)
+        finally:
+            del A.ALPHABETS['_replay']
+        return {sig for (_, sig) in a.fails}
     if 'schedule' in case:
         s = case['schedule']
+        if not s.get('cold') and not s.get('preempts'):
+            a = sched_shard(s['threads'], s['version'], 0, [5, 50])
+            return {sig for (_, sig) in a.fails}
         if s.get('cold'):
             a = cold_shard(s['version'], [0, 1], [s['preempts'][0][0]], s['start'])
         else:
